@@ -37,6 +37,7 @@ pub fn run(pid: &str, c: &Case) {
         "C06" => crate::ikprops::c06(c),
         "C08" => crate::ikprops::c08(c),
         "C16" => c16(c),
+        "C17" => c17(c),
         _ => { println!("reproduced=false"); println!("error=unknown property {}", pid); }
     }
 }
@@ -233,4 +234,66 @@ fn c16(c: &Case) {
     bad.dedup();
     for b in bad.iter().take(5) { println!("diff={}", b); }
     println!("reproduced={}", !bad.is_empty());
+}
+
+use nalgebra::Point3;
+fn p3(v: &V3) -> Point3<f64> { Point3::new(v[0], v[1], v[2]) }
+fn apply(m: &Iso, p: &V3) -> V3 { let r = mv(&m.r, p); [r[0] + m.t[0], r[1] + m.t[1], r[2] + m.t[2]] }
+/// C17: clause = main | collinear_source | collinear_target | mismatch | translation | forward_transformed
+fn c17(c: &Case) {
+    let clause = c.s("clause"); let mut bad: Vec<String> = Vec::new();
+    match clause.as_str() {
+        "main" => {
+            let b = euler_iso(&c.v("eulerB"), &[0.0; 3]); let m = euler_iso(&c.v("eulerM"), &c.v("shift"));
+            let p1v = c.v("p1"); let p1 = [p1v[0], p1v[1], p1v[2]]; let (l, u, w) = (c.f("l"), c.f("u"), c.f("w"));
+            let e1 = [b.r[0][0], b.r[1][0], b.r[2][0]]; let e2 = [b.r[0][1], b.r[1][1], b.r[2][1]];
+            let p2 = [p1[0] + l * e1[0], p1[1] + l * e1[1], p1[2] + l * e1[2]];
+            let p3v = [p1[0] + u * e1[0] + w * e2[0], p1[1] + u * e1[1] + w * e2[1], p1[2] + u * e1[2] + w * e2[2]];
+            let (q1, q2, q3) = (apply(&m, &p1), apply(&m, &p2), apply(&m, &p3v));
+            let scale = 1.0 + l.abs() + u.abs() + w.abs() + p1.iter().map(|x| x.abs()).sum::<f64>() + m.t.iter().map(|x| x.abs()).sum::<f64>();
+            if l < 1e-3 || w < 1e-3 * (1.0 + u.abs()) { println!("oracle=ill-conditioned"); println!("reproduced=false"); return; }
+            match Frame::frame(p3(&p1), p3(&p2), p3(&p3v), p3(&q1), p3(&q2), p3(&q3)) {
+                Err(e) => bad.push(format!("rejected: {}", e)),
+                Ok(f) => { let fi = iso_of(&f);
+                    for (p, q) in [(p1, q1), (p2, q2), (p3v, q3)] { if dist(&apply(&fi, &p), &q) > 1e-8 * scale { bad.push(format!("frame does not map {:?} onto {:?}", p, q)); } }
+                    if !close_iso(&fi, &m, 1e-7 * scale) { bad.push("frame differs from the generating rigid motion".into()); }
+                    if (det(&fi.r) - 1.0).abs() > 1e-7 { bad.push("not a proper rotation".into()); } }
+            }
+        }
+        "collinear_source" | "collinear_target" => {
+            let o = c.v("line_o"); let d = c.v("line_d"); let (a, b) = (c.f("a"), c.f("b")); let g = c.v("other");
+            let l1 = [o[0], o[1], o[2]]; let l2 = [o[0] + a * d[0], o[1] + a * d[1], o[2] + a * d[2]]; let l3 = [o[0] + b * d[0], o[1] + b * d[1], o[2] + b * d[2]];
+            let (g1, g2, g3) = ([g[0], g[1], g[2]], [g[3], g[4], g[5]], [g[6], g[7], g[8]]);
+            let r = if clause == "collinear_source" { Frame::frame(p3(&l1), p3(&l2), p3(&l3), p3(&g1), p3(&g2), p3(&g3)) } else { Frame::frame(p3(&g1), p3(&g2), p3(&g3), p3(&l1), p3(&l2), p3(&l3)) };
+            // exact collinearity is only meaningful when the three points are exactly on a line in f64 as well: use axis-aligned re-test as well
+            if r.is_ok() {
+                let cr = [(l2[1]-l1[1])*(l3[2]-l1[2])-(l2[2]-l1[2])*(l3[1]-l1[1]), (l2[2]-l1[2])*(l3[0]-l1[0])-(l2[0]-l1[0])*(l3[2]-l1[2]), (l2[0]-l1[0])*(l3[1]-l1[1])-(l2[1]-l1[1])*(l3[0]-l1[0])];
+                if cr.iter().all(|x| *x == 0.0) { bad.push(format!("collinear {} points accepted", if clause == "collinear_source" { "source" } else { "target" })); }
+            }
+            // canonical exactly-collinear probes
+            let (s1, s2, s3) = (Point3::new(0.0, 0.0, 0.0), Point3::new(1.0, 0.0, 0.0), Point3::new(2.0, 0.0, 0.0));
+            let (t1, t2, t3) = (Point3::new(0.0, 0.0, 0.0), Point3::new(1.0, 0.0, 0.0), Point3::new(1.0, 1.0, 0.0));
+            let (u1, u2, u3) = (Point3::new(0.0, 0.0, 0.0), Point3::new(1.0, 0.0, 0.0), Point3::new(2.0, 0.0, 0.0));
+            let rr = if clause == "collinear_source" { Frame::frame(s1, s2, s3, u1, u2, u3) } else { Frame::frame(t1, t2, Point3::new(2.0, 0.0, 0.0) + (t3 - Point3::new(2.0, 0.0, 0.0)) * 0.0, u1, u2, u3) };
+            if clause == "collinear_source" { match rr { Ok(_) => bad.push("exactly collinear source accepted".into()), Err(e) => { if !format!("{}", e).contains("source") { bad.push(format!("collinear source reported as: {}", e)); } } } }
+        }
+        "mismatch" => {
+            let a = c.v("a"); let b = c.v("b");
+            let pa = [[a[0], a[1], a[2]], [a[3], a[4], a[5]], [a[6], a[7], a[8]]]; let pb = [[b[0], b[1], b[2]], [b[3], b[4], b[5]], [b[6], b[7], b[8]]];
+            let pairs = [(0, 1), (0, 2), (1, 2)]; let mut off = false;
+            for (i, j) in pairs { if (dist(&pa[i], &pa[j]) - dist(&pb[i], &pb[j])).abs() > 0.005 + 1e-9 { off = true; } }
+            if off { if let Ok(_) = Frame::frame(p3(&pa[0]), p3(&pa[1]), p3(&pa[2]), p3(&pb[0]), p3(&pb[1]), p3(&pb[2])) { bad.push("point triples whose distances differ by more than 5 mm accepted".into()); } }
+        }
+        "translation" => { let p = c.v("p"); let q = c.v("q"); let f = iso_of(&Frame::translation(Point3::new(p[0], p[1], p[2]), Point3::new(q[0], q[1], q[2])));
+            if !close_iso(&f, &Iso { r: I3, t: [q[0] - p[0], q[1] - p[1], q[2] - p[2]] }, 1e-9) { bad.push("translation frame wrong".into()); } }
+        _ => {
+            let (o, p) = opw_of(c); let x = euler_iso(&[0.3, -0.4, 0.5], &[0.02, -0.03, 0.04]);
+            let fr = Frame { robot: Arc::new(OPWKinematics::new(p)), frame: pose_of(&x) };
+            for q in SEEDS.iter() { let (sols, pose) = fr.forward_transformed(q, q); let want = compose(&x, &fk(&o, q));
+                if !close_iso(&iso_of(&pose), &want, 1e-7) { bad.push("forward_transformed pose != frame * forward".into()); }
+                for s in &sols { if !close_iso(&fk(&o, s), &want, 2e-6) { bad.push("forward_transformed answer does not realise the moved pose".into()); } }
+                for w2 in sols.windows(2) { let d = |s: &[f64; 6]| (0..6).map(|i| (s[i] - q[i]).abs()).sum::<f64>(); if d(&w2[0]) > d(&w2[1]) + 1e-9 { bad.push("answers not ordered by closeness to previous".into()); } } }
+        }
+    }
+    bad.dedup(); for b in bad.iter().take(5) { println!("diff={}", b); } println!("reproduced={}", !bad.is_empty());
 }
